@@ -292,6 +292,36 @@ func resolveAddr(s string) *types.Address {
 }
 
 func (e *execEngine) buildTx(n *node, t []string) (pb.Transaction, bool, error) {
+	if strings.HasPrefix(t[0], "sig:") && len(t) > 1 {
+		// sig:<ok|empty|bad|short|other|nofrom> <tx...> : the transaction is NOT marked local, so the executor verifies its
+		// signature; the signature (or the sender) is mutated as named
+		tx, _, err := e.buildTx(n, t[1:])
+		if err != nil {
+			return nil, false, err
+		}
+		b := tx.(*pb.BxhTransaction)
+		switch t[0][4:] {
+		case "ok":
+		case "empty":
+			b.Signature = nil
+		case "bad":
+			b.Signature = append([]byte{}, b.Signature...)
+			b.Signature[len(b.Signature)/2] ^= 0x40
+		case "short":
+			b.Signature = []byte{1, 2, 3}
+		case "other":
+			sg, err := acct("somebody-else").priv.Sign(b.SignHash().Bytes())
+			if err != nil {
+				return nil, false, err
+			}
+			b.Signature = sg
+		case "nofrom":
+			b.From = nil
+		default:
+			return nil, false, fmt.Errorf("bad sig kind")
+		}
+		return b, false, nil
+	}
 	switch t[0] {
 	case "xfer": // xfer from to amt
 		if len(t) != 4 {
@@ -411,7 +441,11 @@ func (e *execEngine) buildTx(n *node, t []string) (pb.Transaction, bool, error) 
 		td := &pb.TransactionData{Type: pb.TransactionData_Type(typ), VmType: pb.TransactionData_VMType(vmt), Amount: amt, Payload: inner}
 		payload, _ := td.Marshal()
 		a := acct(t[1])
-		return signTx(a, &pb.BxhTransaction{From: a.addr, To: resolveAddr(t[2]), Payload: payload, Timestamp: nextTs(), Nonce: n.nextNonce(t[1])}), true, nil
+		var to *types.Address
+		if t[2] != "nil" {
+			to = resolveAddr(t[2])
+		}
+		return signTx(a, &pb.BxhTransaction{From: a.addr, To: to, Payload: payload, Timestamp: nextTs(), Nonce: n.nextNonce(t[1])}), true, nil
 	}
 	return nil, false, fmt.Errorf("unknown tx kind %s", t[0])
 }
@@ -465,7 +499,7 @@ func errClass(s string) string {
 		{"proof hash is not correct", "proof-hash"}, {"empty proof", "proof-empty"}, {"proof verify failed", "proof-rule"},
 		{"insufficient balance", "fee"}, {"not sufficient funds", "funds"}, {"invalid transfer amount", "bad-amount"}, {"not such method", "no-method"},
 		{"parse args", "parse-args"}, {"get bolt contract", "no-contract"}, {"empty transaction data", "empty-data"},
-		{"wrong vm type", "wrong-vm"}, {"invalid signature", "bad-sig"}, {"reflect:", "reflect"}, {"runtime error", "runtime"},
+		{"wrong vm type", "wrong-vm"}, {"invalid signature", "bad-sig"}, {"ignature", "bad-sig"}, {"empty receiver", "no-receiver"}, {"empty sender", "bad-sig"}, {"reflect:", "reflect"}, {"runtime error", "runtime"},
 		{"call error:", "call-error"},
 	} {
 		if strings.Contains(s, p[0]) {
